@@ -4,6 +4,7 @@ from tools.props import c05
 from tools.lv import hexs, unhex
 
 LEVEL = "proof"
+RETRY_TIMING = True
 CORRESPONDENCE = c05.CORRESPONDENCE + "; Model/XText.lean vs XText / MailParameter / RcptParameter / Ehlo Display"
 RULE = ("client cases as in C05 (every dialogue position x fault kind, random scripts, all envelope shapes incl. no / UTF-8 reverse path, "
         "quoted and UTF-8 local parts, 8-bit content, all subsets of advertised extensions, hello names); mailparam: custom MAIL/RCPT "
@@ -40,6 +41,11 @@ def gen(tier, rng):
     for n_ in (0, 1, 42, 10 ** 9):
         cases.append(f"mailstd\t{n_}")
     return cases
+
+
+def timing_dependent(case):
+    # a real client against a real peer with read timeouts: a disagreement is re-run alone before it counts
+    return case.split("\t")[0] in ("pool", "wstall", "client", "tls", "sched")
 
 
 def nontrivial(case):
